@@ -51,6 +51,19 @@ def drive(tier):
                     rec_decode(hrp, raw)
                 else:
                     R.add("b32.encode", {"hrp": text(hrp), "ver": ver, "prog": b2l(prog)}, dict(exc_info(s), k="exc"))
+    # checksum-valid strings that violate only the padding / length rules
+    for hrp in ("bc", "tb", "bcrt"):
+        pad_cases = []
+        for ver, n in ((0, 20), (0, 32), (1, 5), (1, 10), (2, 15), (16, 40), (1, 2), (3, 33)):
+            prog = gen.rbytes(r, n)
+            base = [ver] + sa.convertbits(list(prog), 8, 5)
+            for extra in ([0], [0, 0], [0, 0, 0], [1], [16], [0, 1], [31]):
+                pad_cases.append((ver, prog, sa.bech32_encode(hrp, base + extra)))
+            if len(base) > 2:
+                pad_cases.append((ver, prog, sa.bech32_encode(hrp, base[:-1])))
+                pad_cases.append((ver, prog, sa.bech32_encode(hrp, base[:-1] + [base[-1] ^ 1])))
+        for ver, prog, t in pad_cases:
+            rec_decode(hrp, t)
     # real addresses per chain: v0 20/32-byte programs
     naddr = 3 if tier == "quick" else 40
     accepted_other = 0
@@ -112,6 +125,19 @@ def drive(tier):
                     t[p] = r.choice([c for c in CHARSET if c != s[p]])
                 multi.append("".join(t))
             batch(hrp, 0, prog, multi, "multi")
+    # the same strings through CBech32Data under a history of chain selections (expected prefix = the selected chain's)
+    pool = []
+    for chain, hrp in (("mainnet", "bc"), ("testnet", "tb"), ("regtest", "bcrt")):
+        pool += [sa.encode(hrp, 0, list(gen.rbytes(r, 20))), sa.encode(hrp, 0, list(gen.rbytes(r, 32)))]
+    hrp_of = {"mainnet": "bc", "testnet": "tb", "signet": "tb", "regtest": "bcrt"}
+    for _ in range(40 if tier == "quick" else 400):
+        chain = r.choice(list(hrp_of))
+        bitcoin.SelectParams(chain)
+        for t in r.sample(pool, 3):
+            k, o = call(CBech32Data, t)
+            R.add("b32.decode", {"hrp": text(hrp_of[chain]), "s": text(t), "via": "CBech32Data-after-SelectParams"},
+                  {"k": "ret", "ver": o.witver, "prog": b2l(o)} if k == "ret" else
+                  ({"k": "none"} if type(o).__name__ in ("Bech32Error", "Bech32ChecksumError") else dict(exc_info(o), k="exc")))
     bitcoin.SelectParams("mainnet")
     # BIP173 test vectors (valid / invalid)
     vec = ["BC1QW508D6QEJXTDG4Y5R3ZARVARY0C5XW7KV8F3T4", "tb1qrp33g0q5c5txsp9arysrx4k6zdkfs4nce4xj0gdcccefvpysxf3q0sl5k7",
